@@ -1840,6 +1840,10 @@ class Interp:
                 arr, idx = ra
                 k0 = len(idx)
                 return shape_sym(arr.name, k0), (lambda i, arr=arr, idx=idx: self.read(arr, idx + (i,)))
+        if isinstance(v, Opaque) and v.struct and v.struct[0] == 'matches':
+            # the positions np.where(cond)[0] walked one by one: element i is the i-th match, there are count(cond) of them
+            P = v.struct[1]
+            return Rat.atom(App('count', [P])), (lambda i, P=P: Rat.atom(App('match', [P, i])))
         if isinstance(v, tuple) and v and v[0] in ('cmp', 'and', 'or', 'not', 'truth'):
             arrs = [a.args[0] for a in walk_atoms(v) if isinstance(a, App) and a.name == 'arr' and a.args and a.args[0] in self.k.arrays]
             if not arrs:
